@@ -88,8 +88,9 @@ def field_classes(trees):
 class FuncScan:
     """per-function analysis: which names denote shared field objects, which names carry per-call data"""
 
-    def __init__(self, fn, in_field_class):
+    def __init__(self, fn, in_field_class, fclasses=()):
         self.fn = fn
+        self.fclasses = set(fclasses)
         args = fn.args
         params = [a.arg for a in args.posonlyargs + args.args + args.kwonlyargs]
         if args.vararg:
@@ -100,6 +101,18 @@ class FuncScan:
         self.is_field_ctx = self.has_self and (in_field_class or "self" in [a.arg for a in args.kwonlyargs])
         self.tainted = {p for p in params if p not in ("self", "cls")}
         self.fieldish = {"self"} if self.is_field_ctx else set()
+        # a function that is handed a Field object: a parameter called *field*, or any name the function tests with
+        # isinstance(name, <Field class>)  (e.g. deserialize_single_field(field, ...): isinstance(field, SerializableField))
+        self.fieldish |= {p for p in params if "field" in p.lower() and p not in ("self", "cls")
+                          and not p.lower().endswith(("name", "names", "by_name"))}
+        for n in ast.walk(fn):
+            if isinstance(n, ast.Call) and isinstance(n.func, ast.Name) and n.func.id == "isinstance" and len(n.args) == 2 \
+                    and isinstance(n.args[0], ast.Name):
+                cs = n.args[1].elts if isinstance(n.args[1], ast.Tuple) else [n.args[1]]
+                names = {c.id if isinstance(c, ast.Name) else getattr(c, "attr", None) for c in cs}
+                if names & self.fclasses:
+                    self.fieldish.add(n.args[0].id)
+        self.tainted -= {p for p in self.fieldish if p in params}   # the Field object itself is not per-call data
         self._fix()
 
     def _assignments(self):
@@ -157,8 +170,14 @@ class FuncScan:
     def value_kind(self, v):
         if names_in(v) - _lambda_params(v) & self.tainted:
             return "perCall"
+        derived = set()     # local names holding (something computed from) a scratch `_name`
+        for tgt, val in self._assignments():
+            if isinstance(tgt, ast.Name) and any(isinstance(x, ast.Attribute) and x.attr == "_name" for x in ast.walk(val)):
+                derived.add(tgt.id)
         for x in ast.walk(v):
             if isinstance(x, ast.Attribute) and x.attr == "_name":
+                return "ownerName"
+            if isinstance(x, ast.Name) and x.id in derived:
                 return "ownerName"
         return "definitionOnly"
 
@@ -208,7 +227,7 @@ def scan(repo=None):
             if fn.name in DEFINITION_TIME:
                 return
             qual = f"{cls}.{fn.name}" if cls else fn.name
-            fs = FuncScan(fn, cls in fclasses)
+            fs = FuncScan(fn, cls in fclasses, fclasses)
             writes = []
             for n in ast.walk(fn):
                 if isinstance(n, ast.Call) and isinstance(n.func, ast.Name) and n.func.id == "setattr" and len(n.args) == 3:
@@ -225,7 +244,9 @@ def scan(repo=None):
                             writes.append((n.lineno, t.value, t.attr, val))
                         elif isinstance(t, ast.Subscript) and isinstance(t.value, ast.Name) and t.value.id in module_dicts:
                             rows.append({"path": rel, "file": os.path.basename(rel), "func": qual, "attr": t.value.id,
-                                         "target": "<module>", "valueKind": "keyedCache", "readBack": True,
+                                         "target": "<module>", "readBack": True,
+                                         "valueKind": "publishedIncomplete" if _mutated_after_publish(fn, n, t, tgts)
+                                         else "keyedCache",
                                          "line": n.lineno, "events": {}, "first_line": fn.lineno, "last_line": fn.end_lineno})
             for lineno, tgt, attr, val in writes:
                 tgt_s = ast.unparse(tgt)
@@ -269,6 +290,45 @@ def scan(repo=None):
         visit(tree.body, None)
     rows.sort(key=lambda r: (r["path"], r["line"]))
     return rows
+
+
+_MUTATORS = {"update", "append", "extend", "add", "setdefault", "pop", "popitem", "clear", "insert", "remove",
+             "__setitem__", "appendleft"}
+
+
+def _mutated_after_publish(fn, stmt, sub, tgts):
+    """is the object stored into the module-level cache by `stmt` still being built afterwards?  (publish-before-fill:
+    another thread can then take the half-built object out of the cache)"""
+    names = {t.id for t in tgts if isinstance(t, ast.Name)}
+    if isinstance(stmt.value, ast.Name):
+        names.add(stmt.value.id)
+    cache = sub.value.id
+    line = stmt.end_lineno or stmt.lineno
+
+    def is_published(e):
+        # the published name, or CACHE[...] itself
+        if isinstance(e, ast.Name):
+            return e.id in names
+        return isinstance(e, ast.Subscript) and isinstance(e.value, ast.Name) and e.value.id == cache
+
+    in_loop = any(isinstance(l, (ast.For, ast.While)) and l.lineno <= stmt.lineno <= (l.end_lineno or l.lineno)
+                  for l in ast.walk(fn))
+    for n in ast.walk(fn):
+        ln = getattr(n, "lineno", None)
+        if ln is None or n is stmt or (ln <= line and not in_loop):
+            continue
+        if isinstance(n, (ast.Assign, ast.AugAssign, ast.AnnAssign)):
+            for t in (n.targets if isinstance(n, ast.Assign) else [n.target]):
+                if isinstance(t, (ast.Subscript, ast.Attribute)) and is_published(t.value):
+                    return True
+        if isinstance(n, ast.Delete):
+            for t in n.targets:
+                if isinstance(t, ast.Subscript) and is_published(t.value):
+                    return True
+        if isinstance(n, ast.Call) and isinstance(n.func, ast.Attribute) and n.func.attr in _MUTATORS \
+                and is_published(n.func.value):
+            return True
+    return False
 
 
 def _stmt_spans(fn):
